@@ -292,6 +292,14 @@ def generate(workdir='/verif/work'):
     pcur = panicsmod.scan()
     pbase = json.load(open(os.path.join(os.path.dirname(os.path.abspath(__file__)), 'panic_baseline.json')))['sites']
     panic_growth = panicsmod.compare(pcur, pbase)
+    # memo-relevant attributes of every production: (number of #[packrat_parser], #[recursive_parser]) against the committed inventory
+    memo_attrs = {n: [int(bool(prods[n]['packrat'])) + int(bool(prods[n].get('packrat2'))), int(bool(prods[n]['recursive']))] for n in names}
+    mb_path = os.path.join(os.path.dirname(os.path.abspath(__file__)), 'memo_baseline.json')
+    memo_changes = []
+    if os.path.exists(mb_path):
+        mb = json.load(open(mb_path))['attrs']
+        for n in sorted(set(mb) | set(memo_attrs)):
+            if mb.get(n) != memo_attrs.get(n): memo_changes.append('%s: %s -> %s' % (n, mb.get(n), memo_attrs.get(n)))
     sitems, sclears = staticsmod.generate()
     if write_if_changed(os.path.join(GEN, 'Statics.lean'), staticsmod.emit(sitems, sclears)): changed.append('Statics')
     # memo capacity constant of the storage! invocation
@@ -323,7 +331,7 @@ def generate(workdir='/verif/work'):
         'productions': len(names), 'opaque': tr.opaque, 'combinators': sorted(tr.comb_templates),
         'packrat': sum(1 for n in names if prods[n]['packrat']), 'packrat_twice': sum(1 for n in names if prods[n].get('packrat2')), 'recursive': sum(1 for n in names if prods[n]['recursive']),
         'kinds': len(tr.kinds), 'keyword_tables': {v: len(t) for v, t in zip(vers, tbls)}, 'kw_default': dflt,
-        'kw_problems': kw_problems, 'entry_problems': eproblems, 'statics': [list(x) for x in sitems], 'clears': sclears, 'panic_growth': panic_growth, 'panic_sites': sum(sum(v.values()) for v in pcur.values()), 'conv_rows': len(rows), 'conv_opaque': conv_opaque,
+        'kw_problems': kw_problems, 'entry_problems': eproblems, 'statics': [list(x) for x in sitems], 'clears': sclears, 'panic_growth': panic_growth, 'memo_attrs': memo_attrs, 'memo_attr_changes': memo_changes, 'panic_sites': sum(sum(v.values()) for v in pcur.values()), 'conv_rows': len(rows), 'conv_opaque': conv_opaque,
         'productive_marks': len(mlist), 'unmarked': sorted(n for n in names if n not in marks),
         'corpus': cn, 'test_macros': ctotal, 'changed_modules': changed,
         'names': names, 'kind_names': ['Locate'] + [k[0] for k in tr.kinds],
